@@ -131,6 +131,20 @@ CHECKS = {
         design_ref="DESIGN.md section 4, C12",
         note=TRUST_A + " Scenes use distinct integer intensities so that sums are exact and the maximum pixel "
              "identifies its component."),
+    "C15": dict(
+        engine="pysched",
+        technique="deterministic simulation: the Python source of the numba prange loops run by T simulated threads "
+                  "(baton-passing real threads, seeded scheduler, pre-emption between bytecodes), unchanged "
+                  "find_ND_labels / pks_table on top; oracle = union-find components + bounded sweeps + weighted-mean "
+                  "reference; native compiled code cross-checked at several numba thread counts",
+        text="The prange loop of numbalabelNd reads and writes the shared label array; the simulation interleaves its "
+             "iterations at bytecode granularity for 1..16 threads, contiguous or random chunks, and checks that the "
+             "fixed point is the component labelling, reached within a sweep bound. Other prange loops are run with "
+             "scheduler-ordered iterations (or on simulated threads when their prelude is side-effect free).",
+        design_ref="DESIGN.md section 4, C15",
+        note="Trusted base: numba's documented prange semantics (chunks, scalar reductions summed at the join) and "
+             "sequential consistency at bytecode granularity; the compiled machine code itself is not schedulable and "
+             "is only cross-checked natively. Graphs up to 60 nodes are sampled."),
 }
 
 NOT_APPLICABLE = {
